@@ -7,7 +7,8 @@ NoPats    == {<<>>}
 \* long transfers: cyclic patterns for the whole transfer
 LensLongQuick    == {1000, 4097}
 LensLongThorough == {1000, 4097, 8192, 20000}
-WPatsLong == {<<<<"ok", 0>>>>, <<<<"sh", 5>>, <<"ei", 0>>>>, <<<<"sh", 3>>, <<"ea", 0>>, <<"ei", 0>>>>}
+WPatsLong == {<<<<"ok", 0>>>>, <<<<"sh", 5>>, <<"ei", 0>>>>, <<<<"sh", 7>>, <<"ea", 0>>, <<"ei", 0>>>>,
+              <<<<"sh", 100>>, <<"ei", 0>>>>, <<<<"sh", 37>>, <<"ea", 0>>, <<"ei", 0>>, <<"ei", 0>>>>}
 RPatsLong == {<<<<"sh", 5>>, <<"ei", 0>>>>, <<<<"ei", 0>>, <<"ei", 0>>, <<"sh", 7>>>>, <<<<"ei", 0>>, <<"ok", 0>>>>, <<<<"sh", 1>>>>}
 ObsEmit(r) == PrintT(ToJson(r))
 ObsNone(r) == TRUE
